@@ -5,7 +5,7 @@
    library record, and all raw namespaces. *)
 From Coq Require Import ZArith List Bool Lia.
 From Batchie Require Import Lib.Sexp Lib.PyRt Model.Cli Generated.SrcCli Generated.SrcCliArgs Proofs.PyRtLemmas
-  Proofs.C06SourceCli Proofs.C18SourceArgs.
+  Proofs.C06SourceCli Proofs.C18SourceArgs Proofs.C18SourceIntrospect.
 Import ListNotations.
 Open Scope Z_scope.
 
@@ -39,4 +39,16 @@ Proof.
   destruct (sn_load_screen L (sn_data (sn_plain a))); cbn [res_bind]; [|reflexivity].
   destruct (sn_policy (sn_plain a)); cbn [is_some res_bind]; [|reflexivity].
   destruct (unwrap (sn_policy_cls a)); cbn [res_bind]; reflexivity.
+Qed.
+
+Theorem src_cli_select_next_plate_cmd_world :
+  forall (Mod Obj F O : Type) (W : pyworld Mod Obj) (P : pyprims F O) (Scr Pl Po H : Type)
+         (construct : Obj -> list (str * pval F O) -> result Po) (L : sn_lib Scr Pl Po H) (mix : Z -> Z)
+         (raw : sn_ns Obj F O),
+  src_cli_select_next_plate_cmd Obj F O (introspect_src W) P Scr Pl Po H construct L mix raw
+  = cli_select_next_plate_cmd (introspect_of W) P construct L mix raw.
+Proof.
+  intros. rewrite src_cli_select_next_plate_cmd_is_model.
+  unfold cli_select_next_plate_cmd, sn_get_args. destruct (sn_policy (sn_plain raw)); [|reflexivity].
+  now rewrite resolve_src.
 Qed.
